@@ -239,7 +239,7 @@ func replayOnce(conf *confT, evs []Ev, st *statsT) *viol {
 			fv, _ := r.final()
 			return fv
 		}
-		def, _, sv := r.succ()
+		def, _, sv := r.succ(1)
 		if sv != nil {
 			return sv
 		}
